@@ -75,7 +75,7 @@ def prop(pid, files, extra=(), streams=(), direct=(), trusted=(), assumptions=()
     if rule: PROPS[pid]["rule"] = rule
 
 
-prop("C01", ["PepitVerif/Props/C01.lean", "PepitVerif/Math/CvxSem.lean", "PepitVerif/Math/Certificate.lean"],
+prop("C01", ["PepitVerif/Props/C01.lean", "PepitVerif/Props/C01Check.lean", "PepitVerif/Math/CvxSem.lean", "PepitVerif/Math/Certificate.lean"],
      streams=[stream("resolve (scripted solver, tagged duals, returned dual value, function-level LMIs, primal mode)", "resolve", 150, 3000),
               stream("tree (symmetrize_dict / prune_dict / constant / remaining terms of check_feasibility on random expressions)", "tree", 150, 3000, offset=73),
               stream("collect+cvx (the real CvxpyWrapper: kinds and residuals of the cvxpy constraints it builds, _recover_dual_values on tagged duals, vs Cvx.emit / Cvx.recover)", "collect", 100, 2000, env={"PEPV_TEE": "1", "STUBS": "1"}, offset=83)],
@@ -160,12 +160,12 @@ prop("C12", ["PepitVerif/Props/C12.lean"],
               stream("flow (the calls made to the solver, incl. the dimension-reduction stage, are the same whatever the verbosity)", "flow", 150, 2000, script="corr_c14.py", offset=157)],
      direct=[oracle("c12_history", 12, 150)])
 
-prop("C13", ["PepitVerif/Props/C13.lean"],
+prop("C13", ["PepitVerif/Props/C13.lean", "PepitVerif/Props/C13Hist.lean"],
      streams=[stream("resolve (histories of solves, edits, evaluations of held objects)", "resolve", 200, 4000, offset=31),
               stream("collect (what a second solve sends after the model was edited: partition constraints, new samples, changed class parameters)", "collect", 150, 3000, offset=107)],
      direct=[oracle("c13_resolve", 32, 240)])
 
-prop("C15", ["PepitVerif/Props/C15.lean", "PepitVerif/Math/PartitionSem.lean"],
+prop("C15", ["PepitVerif/Props/C15.lean", "PepitVerif/Math/PartitionSem.lean", "PepitVerif/Props/C13Hist.lean"],
      streams=[stream("cls (block-smooth functions, partitions with 1-3 blocks)", "cls", 250, 4000, env={"PEPV_CLS_FOCUS": "BlockSmoothConvexFunction"}, offset=37),
               stream("collect (partition constraints sent)", "collect", 100, 2000, offset=41)],
      direct=[oracle("c15_blocks", 100, 2000)])
